@@ -526,6 +526,10 @@ func importTar(in io.ReaderAt) (*tarFile, error) {
 }
 
 func moveRec(name string, in *tarFile, out *tarFile, picked map[string]struct{}) error {
+	return moveRecVisiting(name, in, out, picked, make(map[string]struct{}))
+}
+
+func moveRecVisiting(name string, in *tarFile, out *tarFile, picked map[string]struct{}, visiting map[string]struct{}) error {
 	name = cleanEntryName(name)
 	if name == "" { // root directory. stop recursion.
 		if e, ok := in.get(name); ok {
@@ -556,11 +560,16 @@ func moveRec(name string, in *tarFile, out *tarFile, picked map[string]struct{})
 			break
 		}
 	}
-	if err := moveRec(parent, in, out, picked); err != nil {
+	if _, loop := visiting[name]; loop {
+		return fmt.Errorf("file: %q: hardlinks or parents form a loop", name)
+	}
+	visiting[name] = struct{}{}
+	defer delete(visiting, name)
+	if err := moveRecVisiting(parent, in, out, picked, visiting); err != nil {
 		return err
 	}
 	if e, ok := in.get(name); ok && e.header.Typeflag == tar.TypeLink {
-		if err := moveRec(e.header.Linkname, in, out, picked); err != nil {
+		if err := moveRecVisiting(e.header.Linkname, in, out, picked, visiting); err != nil {
 			return err
 		}
 	}
